@@ -278,6 +278,11 @@ class InterpBase:
             if name in f.locals:
                 return f.locals[name]
             f = f.parent
+        if fr.fi is None and fr.lexical_class is not None:
+            # evaluation in a class body's namespace (default values, class attributes)
+            mem = self.index.lookup_member(fr.lexical_class, name)
+            if mem is not None and mem[0] == "classattr":
+                return self.class_attr_value(mem[2], name, mem[1])
         mod = fr.module
         v = self.lookup_global(mod, name)
         if v is not None:
